@@ -62,6 +62,7 @@ type C19Stats struct {
 	CallerScribbles, FinalizersFired       uint64
 	FaultsFired, DenseFull, DenseRotations uint64
 	Unterminated, Unreproducible           uint64
+	WindowChecks                           uint64
 	NontrivialDigests                      map[uint64]struct{}
 	Samples                                []interface{}
 }
@@ -119,6 +120,7 @@ func runRef(seed uint64, cfg *C19Config, prog []Op, st *C19Stats) ([]Op, []stepR
 		out = append(out, op)
 		w.step = k
 		prePtr := append([]*tensor.Dense(nil), w.slots...)
+		preWin := captureWindows(w)
 		o := w.Exec(&op)
 		tensor.VerifDrainChanPools()
 		if st != nil {
@@ -198,6 +200,18 @@ func runRef(seed uint64, cfg *C19Config, prog []Op, st *C19Stats) ([]Op, []stepR
 			if (a.Data != b.Data || a.Mask != b.Mask) && (!sharesDest(i) || op.Name == "DecodeInto") {
 				d := fmt.Sprintf("%s changed the %sof slot %d, which is not a destination and shares no storage with one", op.Name, diffSnap(Snap{Data: a.Data, Mask: a.Mask}, Snap{Data: b.Data, Mask: b.Mask}), i)
 				return out, recs, &Violation{Property: "C19", Kind: "frame", Step: k, FailOp: op.Name, Detail: d, Class: "data:" + diffSnap(Snap{Data: a.Data, Mask: a.Mask}, Snap{Data: b.Data, Mask: b.Mask})}
+			}
+			// window discipline: a tensor that shares a backing array with a destination may change, but only
+			// in the elements the destination addresses (the documented sharing); what lies between or beside
+			// the destination's elements belongs to the other tensor alone
+			if a.Data != b.Data && op.Name != "DecodeInto" {
+				if st != nil {
+					st.WindowChecks++
+				}
+				if el, ok := outsideDestChanged(w, i, preWin, dests); ok {
+					d := fmt.Sprintf("%s changed element %d (storage order) of slot %d, which is not a destination; the element shares a backing array with the destination but is not one of the elements the destination addresses", op.Name, el, i)
+					return out, recs, &Violation{Property: "C19", Kind: "frame", Step: k, FailOp: op.Name, Detail: d, Class: "window:outside-destination"}
+				}
 			}
 		}
 		preSn, preLv, preRoots = sn, lv, roots
@@ -479,4 +493,142 @@ func dumpC19(c *C19Case) {
 		}
 		env.Flush()
 	}
+}
+
+// winRec is what the window oracle remembers of a live tensor before an operation.
+type winRec struct {
+	ptr            uintptr
+	raw            []byte
+	shape, strides []int
+	esz            int
+}
+
+func captureWindows(w *World) []winRec {
+	r := make([]winRec, len(w.slots))
+	for i, t := range w.slots {
+		if t == nil || t.Dtype().Type == nil {
+			continue
+		}
+		raw := tensor.VerifRaw(t)
+		if len(raw) == 0 {
+			continue
+		}
+		in := tensor.VerifInternals(t)
+		r[i] = winRec{ptr: in.RawPtr, raw: append([]byte(nil), raw...), shape: in.Shape, strides: in.Strides, esz: int(t.Dtype().Size())}
+	}
+	return r
+}
+
+// addressed calls f with the byte offset (relative to the window start) of every element an access pattern reaches.
+// It reports false when it cannot interpret the access pattern (then nothing was visited).
+func addressed(shape, strides []int, f func(off int)) bool {
+	if len(shape) != len(strides) {
+		// the library's vector convention: (n,1) and (1,n) carry one stride, that of the long axis
+		if len(strides) != 1 {
+			return false
+		}
+		long, n := 0, 1
+		for _, d := range shape {
+			if d > 1 {
+				long++
+				n = d
+			} else if d != 1 {
+				return false
+			}
+		}
+		if long > 1 {
+			return false
+		}
+		shape, strides = []int{n}, strides[:1]
+	}
+	n := 1
+	for _, d := range shape {
+		if d <= 0 {
+			return false
+		}
+		n *= d
+		if n > 1<<14 {
+			return false
+		}
+	}
+	idx := make([]int, len(shape))
+	for k := 0; k < n; k++ {
+		off := 0
+		for j := range idx {
+			off += idx[j] * strides[j]
+		}
+		f(off)
+		for j := len(idx) - 1; j >= 0; j-- {
+			idx[j]++
+			if idx[j] < shape[j] {
+				break
+			}
+			idx[j] = 0
+		}
+	}
+	return true
+}
+
+// outsideDestChanged reports an element of slot i (in storage order within its window) that changed although no
+// destination addresses it, neither through the access pattern it had before the operation nor the one it has now.
+func outsideDestChanged(w *World, i int, pre []winRec, dests []int) (int, bool) {
+	p := pre[i]
+	t := w.slots[i]
+	if p.raw == nil || t == nil {
+		return 0, false
+	}
+	now := tensor.VerifRaw(t)
+	if len(now) != len(p.raw) || p.esz == 0 {
+		return 0, false
+	}
+	allowed := map[uintptr]bool{}
+	understood := true
+	mark := func(ptr uintptr, shape, strides []int, esz int) {
+		if !addressed(shape, strides, func(off int) {
+			for b := 0; b < esz; b++ {
+				allowed[ptr+uintptr(off*esz+b)] = true
+			}
+		}) {
+			understood = false
+		}
+	}
+	for _, d := range dests {
+		if d < 0 || d >= len(w.slots) {
+			continue
+		}
+		if d < len(pre) && pre[d].raw != nil {
+			mark(pre[d].ptr, pre[d].shape, pre[d].strides, pre[d].esz)
+		}
+		if dt := w.slots[d]; dt != nil && dt.Dtype().Type != nil && len(tensor.VerifRaw(dt)) > 0 {
+			in := tensor.VerifInternals(dt)
+			mark(in.RawPtr, in.Shape, in.Strides, int(dt.Dtype().Size()))
+		}
+	}
+	if !understood {
+		return 0, false // a destination whose access pattern this oracle cannot interpret excuses everything
+	}
+	bad, found := 0, false
+	addressed(p.shape, p.strides, func(off int) {
+		if found || off < 0 || (off+1)*p.esz > len(now) {
+			return
+		}
+		lo := off * p.esz
+		same := true
+		for b := 0; b < p.esz; b++ {
+			if now[lo+b] != p.raw[lo+b] {
+				same = false
+				break
+			}
+		}
+		if same {
+			return
+		}
+		for b := 0; b < p.esz; b++ {
+			if !allowed[p.ptr+uintptr(lo+b)] {
+				bad, found = off, true
+				return
+			}
+		}
+	})
+	return bad, found
 }
